@@ -1397,6 +1397,9 @@ class ServiceAnnouncer:
         self.started = True
 
     def stop(self):
+        if not self.started:
+            # already stopped (eg. stop() after connection_lost()): nothing to do
+            return
         for instance in self.announcing_services:
             instance.stop()
         self.started = False
